@@ -129,6 +129,8 @@ def run(chk, tier, seed):
     chk.cov["offending_items"] = offenders
 
     # ---- probes ---------------------------------------------------------------------------------
+    if tier == "thorough":
+        sf.thorough_coqchk(chk, ["GAApi.Props.C12"])
     okh, texth, host = sf.host_build()
     chk.correspondence("C12: crate builds (rlib for the probes)", okh, texth[-2000:] if not okh else "")
     if not okh:
@@ -265,6 +267,9 @@ def _synthesise_callback_escapes(chk, host, names):
 def replay(path):
     """Re-compile (and run, if accepted) the probe stored in a replay file against the current /repo."""
     txt = open(path).read()
+    if "no concrete failing input was found" in txt[:200]:
+        print(txt)   # names the theorem / correspondence that no longer checks; nothing to re-run
+        return 0
     m = re.search(r"(?m)^// probe (\S+)", txt)
     src = txt[txt.index("// probe "):] if "// probe " in txt else txt
     okh, texth, host = sf.host_build()
